@@ -57,10 +57,11 @@ struct DeState {
 type Stream = sonic_rs::StreamDeserializer<'static, Value, sonic_rs::Read<'static>>;
 
 pub fn run_history(threaded: bool, prog: &str) -> String {
-    run_history_mode(threaded, false, prog)
+    run_history_mode(threaded, false, false, prog)
 }
 
-pub fn run_history_mode(threaded: bool, streamed: bool, prog: &str) -> String {
+/// `raw`: every parse runs with `use_rawnumber()` — numbers are then arena nodes (like strings), not static ones
+pub fn run_history_mode(threaded: bool, streamed: bool, raw: bool, prog: &str) -> String {
     let mut st: Option<Stream> = None;
     let base_arena = sonic_rs::verif::arenas_created();
     let _ = freed_log();
@@ -79,7 +80,15 @@ pub fn run_history_mode(threaded: bool, streamed: bool, prog: &str) -> String {
         match p[0] {
             "P" => {
                 let doc = unhex(p[1]);
-                match tracked(|| sonic_rs::from_slice::<Value>(&doc).map_err(drop)) {
+                let parsed = if raw {
+                    tracked(|| {
+                        let mut d = sonic_rs::Deserializer::from_slice(&doc).use_rawnumber();
+                        Value::deserialize(&mut d).map_err(drop)
+                    })
+                } else {
+                    tracked(|| sonic_rs::from_slice::<Value>(&doc).map_err(drop))
+                };
+                match parsed {
                     Ok(v) => {
                         slots.push(v);
                         refs.push(serde_json::from_slice(&doc).unwrap());
@@ -246,7 +255,7 @@ pub fn run_history_mode(threaded: bool, streamed: bool, prog: &str) -> String {
                 if streamed {
                     st = Some(tracked(|| sonic_rs::Deserializer::from_slice(buf).into_stream::<Value>()));
                 } else {
-                    de = Some(tracked(|| DeState { de: sonic_rs::Deserializer::from_slice(buf) }));
+                    de = Some(tracked(|| DeState { de: if raw { sonic_rs::Deserializer::from_slice(buf).use_rawnumber() } else { sonic_rs::Deserializer::from_slice(buf) } }));
                 }
             }
             "V" if streamed => match st.as_mut() {
@@ -442,7 +451,8 @@ pub fn run() {
             let prog = p.get(2).copied().unwrap_or("").to_string();
             let threaded = mode == "t";
             let streamed = mode == "q";
-            out.line(&guarded(move || run_history_mode(threaded, streamed, &prog)));
+            let raw = mode == "r";
+            out.line(&guarded(move || run_history_mode(threaded, streamed, raw, &prog)));
         }
     }
 }
@@ -700,6 +710,17 @@ pub fn gen(seed: u64, thorough: bool) {
     ] {
         out.line(&format!("c16 s {f}"));
         out.line(&format!("c16 t {f}"));
+        if !f.contains("X:") {
+            out.line(&format!("c16 r {f}"));
+        }
+    }
+    // raw-number mode: a number is an arena node; a number ROOT must survive later parses on the same thread
+    for f in [
+        format!("P:{};P:{d1};C:0;P:{d2};D:1;P:{};D:0;D:0;D:0;D:0", h("12345678901234567890.125"), h("[7]")),
+        format!("P:{};P:{};P:{};D:1;D:0;D:0", h("1.25"), h("3e-7"), h("-0")),
+        format!("S:{};V:{}:1;V:{}:0;V:{}:0;P:{d1};E;D:0;D:0;D:0;D:0", h("1.5 2.5 [3.5]"), h("1.5"), h("2.5"), h("[3.5]")),
+    ] {
+        out.line(&format!("c16 r {f}"));
     }
     // every drop order after typical derivations
     gen_drop_orders(&mut out, "[1,\"a\",[2,\"b\"]]", &["C:0", "H:0:2:-", "H:0:1:-"]);
@@ -720,6 +741,9 @@ pub fn gen(seed: u64, thorough: bool) {
         }
         let mode = if k % 4 == 3 { "t" } else { "s" };
         out.line(&format!("c16 {mode} {hist}"));
+        if k % 5 == 1 && !hist.contains("X:") {
+            out.line(&format!("c16 r {hist}"));
+        }
     }
     // concurrent stress
     let reps = if thorough { 40 } else { 6 };
